@@ -38,6 +38,17 @@ def family_gradient(c, fam, n, form):
     c.eq('gradient_is_derivative_of_own_logd', g, c.grad_of(lambda v: d.logd(v), x), tol=1e-4)
 
 
+def mhn_gradient(c, form, n=3):
+    """ModifiedHalfNormal (its own logd and gradient methods): gradient(x) is a vector of the variable's shape and the derivative of the object's own logd"""
+    from cuqi.distribution import ModifiedHalfNormal
+    if form == 'scalar': d = ModifiedHalfNormal(c.real('al', lo=1.5, hi=4), c.real('be', lo=0.5, hi=2), c.real('ga', lo=-1, hi=1), geometry=n)
+    else: d = ModifiedHalfNormal(c.vec('al', n, pos=True) + 1.5, c.vec('be', n, pos=True) + 0.5, c.vec('ga', n))
+    x = c.vec('x', n, pos=True) + 0.1
+    g = d.gradient(x)
+    c.holds('gradient_is_a_vector_of_the_variable_shape', np.shape(g) == (n,), note=f"shape {np.shape(g)}")
+    if np.shape(g) == (n,): c.eq('gradient_is_derivative_of_own_logd', g, c.grad_of(lambda v: d.logd(v), x), tol=1e-4)
+
+
 def family_no_gradient(c, fam, n):
     d, spec, support = FAMILIES[fam](c, n, 'vector')
     x = c.vec('x', n)
@@ -306,6 +317,8 @@ def jobs(tier):
     for kind in ('Gaussian:cov', 'Gaussian:prec', 'GMRF', 'CMRF', 'Cauchy', 'conditional_GMRF'):
         J.append(Job(f'history:gradient_after_parameter_reassignment:{kind}', lambda c, k=kind: reassignment_history(c, k), 'Pbox', Dg, rtol=1e-4))
     J.append(Job('UserDefinedDistribution.gradient', userdefined, 'Pbox', [f'{D}._custom:UserDefinedDistribution.gradient']))
+    for form in ('scalar', 'vector'):
+        J.append(Job(f'MHN.gradient:{form}:n=3', lambda c, f=form: mhn_gradient(c, f), 'B', [f'{D}._modifiedhalfnormal:ModifiedHalfNormal._gradient'], nnum=2))
     for member in ('CalSom91', 'BivariateGaussian', 'funnel', 'mixture', 'squiggle', 'donut'):
         J.append(Job(f'DistributionGallery.gradient:{member}', lambda c, m_=member: gallery(c, m_), 'B', [f'{D}._custom:DistributionGallery.__init__', f'{D}._custom:DistributionGallery._mixture_grad_func'], nnum=3))
     for cfg in ('two_data_likelihoods', 'data_and_user_defined_likelihood', 'user_defined_first', 'three_likelihoods'):
